@@ -209,6 +209,24 @@ def check_channel(ctx, ch, case):
         ctx.count("final_phase_bytes_via_recv", ch.tail_from_recv_only)
 
 
+def check_partial(ctx, ch, case):
+    """Transfer did not complete: whatever was delivered must still be a prefix of what was written."""
+    desc = dict(channel=ch.idx, spec=ch.spec)
+    got_out, err_in_recv = cm.split_streams(bytes(ch.from_recv))
+    low_in_stderr, err_in_stderr = cm.split_streams(bytes(ch.from_stderr))
+    if low_in_stderr:
+        ctx.violation("stdout bytes delivered by recv_stderr", "recv_stderr returned bytes the peer wrote to stdout", desc)
+    if not ch.out.startswith(got_out):
+        ctx.violation("stdout stream long or altered (transfer stalled)",
+                      "bytes read from stdout are not a prefix of what the peer wrote (%d read, %d written)" % (
+                          len(got_out), len(ch.out)), desc)
+    n = len(err_in_recv) + len(err_in_stderr)
+    if n > len(ch.err) or not cm.is_interleaving(ch.err[:n], err_in_recv, err_in_stderr)[0]:
+        ctx.violation("stderr stream long or altered (transfer stalled)",
+                      "stderr bytes read are not a prefix-split of what the peer wrote (%d read, %d written)" % (n, len(ch.err)),
+                      desc)
+
+
 def run_case(ctx, case, rng, seedbase):
     p = pair.Pair(rng=rng)
     if case["compress"]:
@@ -288,9 +306,30 @@ def run_case(ctx, case, rng, seedbase):
                 break
         writers = [t for ch in chans for t in ch.threads[:2]]
         readers = [(ch, ch.threads[2]) for ch in chans]
-        for t in writers:
-            t.join(300)
+        end_w = time.monotonic() + 300
+        stalled = False
+        while any(t.is_alive() for t in writers) and time.monotonic() < end_w:
+            time.sleep(0.01)
+            if p.link.quiescent(2.0):
+                # nothing moves although writers are alive: look whether every reader is idling too
+                snap = [(ch, ch.idle) for ch in chans]
+                pair.wait_for(lambda: all(ch.idle >= i0 + 40 or not ch.threads[2].is_alive() for ch, i0 in snap), 30, 0.005)
+                if p.link.quiescent(2.0) and any(t.is_alive() for t in writers):
+                    stalled = True
+                    break
         p.link.set_latency(0)
+        if stalled:
+            # a stalled transfer is C20's subject; here only what *was* delivered is judged: it must be a prefix
+            for ch in chans:
+                ch.giveup.set()
+            for ch in chans:
+                ch.threads[2].join(10)
+            ctx.count("transfers_stalled")
+            for ch in chans:
+                check_partial(ctx, ch, case)
+            if not ctx.violations:
+                ctx.inconclusive("transfer stalled with intact prefixes: %s" % [ch.errors for ch in chans][:3])
+            return
         if rekey_err or any(t.is_alive() for t in writers):
             for ch in chans:
                 ch.giveup.set()
